@@ -1,7 +1,29 @@
 import GoSandbox.Base.Proto
 import GoSandbox.Model.Socket
+import GoSandbox.Model.Gob
 namespace GoSandbox.Driver.C19
 open GoSandbox.Proto GoSandbox.Model.Socket
+
+/-- the two message types of package container: the command (kind 0) and the reply (kind 1). Each needs the
+descriptor of its own struct type (with its nested structs) and both need the descriptor of `[]string`, which
+gob does not predefine (cmd: Argv/Env/paths; reply: BatchErrors): id 3 is shared. Observed on the real
+encoder/decoder: after an unsent oversize first command a small reply fails with
+"gob: wrong type ([]string) for received field reply.BatchErrors". -/
+def gobCfg : GoSandbox.Model.Gob.Cfg := { descs := fun k => if k == 0 then [1, 3] else [2, 3], descSize := fun _ => 200, cap := 32768 }
+
+/-- `c19.gob s<kind>.<bytes> | r ...`: a history of the gob-framed layer; one outcome per operation:
+S sent, X rejected (too large), G<kind>.<bytes> got, E decode error, 0 nothing to receive -/
+def gobRun (toks : List String) : String :=
+  let ops : List GoSandbox.Model.Gob.Op := toks.filterMap (fun t =>
+    if t == "r" then some GoSandbox.Model.Gob.Op.recv
+    else match (t.drop 1).toString.splitOn "." with
+      | [k, n] => (match k.toNat?, n.toNat? with
+          | some k, some n => some (GoSandbox.Model.Gob.Op.send k (List.replicate n 1))
+          | _, _ => none)
+      | _ => none)
+  let outs := (GoSandbox.Model.Gob.run gobCfg GoSandbox.Model.Gob.init ops).2
+  " ".intercalate (outs.map (fun o => match o with
+    | .sent => "S" | .rejected => "X" | .got k p => s!"G{k}.{p.length}" | .decodeError => "E" | .empty => "0"))
 
 /-- `c19.pair <size> <nfds> <cred|-> <bufsize> <fcap>`: one send then one receive -/
 def handle : List String → Option String
@@ -16,6 +38,7 @@ def handle : List String → Option String
       | .msg d f _ => some s!"msg {d.length} {f.length} {cred} intact=1"
       | .truncated => some "truncated"
       | .empty => some "empty"
+  | "c19.gob" :: ops => some (gobRun ops)
   | _ => none
 
 end GoSandbox.Driver.C19
